@@ -4,7 +4,10 @@ package verifsim
 
 import (
 	"fmt"
+	"os"
+	"path/filepath"
 	"strings"
+	"syscall"
 
 	"github.com/google/mtail/internal/simrt"
 	"github.com/google/mtail/internal/tailer"
@@ -34,9 +37,14 @@ type c17Writer struct {
 
 func propC17(e *Env) {
 	net := installSimNet(e)
+	resetFifoGates()
 	e.S.StmtPreempt = e.Choose("knob", 3) == 1
-	schemes := []string{"unix", "tcp", "unixgram", "udp"}
+	schemes := []string{"unix", "tcp", "unixgram", "udp", "fifo", "stdin"}
 	scheme := schemes[e.Choose("gen", len(schemes))]
+	if scheme == "fifo" || scheme == "stdin" {
+		c17Pipe(e, scheme == "stdin")
+		return
+	}
 	dgram := scheme == "unixgram" || scheme == "udp"
 	var pattern, network, address string
 	switch scheme {
@@ -284,4 +292,239 @@ func propC17(e *Env) {
 	e.R.Nontrivial = nw >= 2 || cancelled
 	e.R.Key = fmt.Sprintf("%s|%x", desc, e.S.Signature())
 	e.R.Sample = map[string]any{"pattern": pattern, "one_shot": oneShot, "writers": nw, "cancel_early": cancelled, "delivered": len(r.got)}
+}
+
+// c17Pipe: a named pipe (or stdin backed by one) on the real kernel, behind the read gate.
+func c17Pipe(e *Env, stdin bool) {
+	path := filepath.Join(e.Dir, "pipe")
+	if err := syscall.Mkfifo(path, 0o600); err != nil {
+		e.Broken("mkfifo: %v", err)
+		return
+	}
+	pattern := path
+	source := path
+	if stdin {
+		f, err := os.OpenFile(path, os.O_RDONLY|syscall.O_NONBLOCK, 0)
+		if err != nil {
+			e.Broken("open fifo for stdin: %v", err)
+			return
+		}
+		old := os.Stdin
+		os.Stdin = f
+		defer func() { os.Stdin = old }()
+		pattern, source = "-", "-"
+	}
+	g := newFifoGate(source)
+	r := newTailRig(e, tailer.LogPatterns([]string{pattern}))
+	if !r.quiesce() {
+		return
+	}
+	if !r.started || r.startErr != nil {
+		e.Broken("tailer.New(%s): started=%v err=%v", pattern, r.started, r.startErr)
+		return
+	}
+	// writer 0: arbitrary chunking, optional unterminated tail; writer 1 (optional, overlapping): whole lines per write
+	nl := 1 + e.Choose("gen", 7)
+	var w0 []string
+	var sb strings.Builder
+	for k := 0; k < nl; k++ {
+		l := fmt.Sprintf("w0-%d", k)
+		if e.Choose("gen", 5) == 0 {
+			l += strings.Repeat("x", e.Choose("gen", 40))
+		}
+		w0 = append(w0, l)
+		sb.WriteString(l)
+		if e.Choose("gen", 6) == 0 {
+			sb.WriteString("\r")
+		}
+		sb.WriteString("\n")
+	}
+	tail := ""
+	second := e.Choose("gen", 3) == 0
+	if !second && e.Choose("gen", 3) == 0 {
+		tail = "w0-tail"
+		sb.WriteString(tail)
+	}
+	total := sb.String()
+	var w1 []string
+	if second {
+		for k := 0; k < 1+e.Choose("gen", 4); k++ {
+			w1 = append(w1, fmt.Sprintf("w1-%d", k))
+		}
+	}
+	cancelEarly := e.Choose("gen", 4) == 0
+	done0, done1 := false, !second
+	sent := 0
+	var w1sent []string // what the second writer actually got into the pipe (it cannot open it once the reader has gone)
+	// Both writing ends are opened before anything is written: a writer that connects after the last one
+	// closed is a new session the reader may already have seen the end of (inherent to pipes, not promised).
+	wr0, err0 := openFifoWriter(g, path)
+	if err0 != nil {
+		e.Broken("open fifo for writing: %v", err0)
+		return
+	}
+	var wr1 *fifoWriter
+	if second {
+		var err1 error
+		if wr1, err1 = openFifoWriter(g, path); err1 != nil {
+			e.Broken("open fifo for writing: %v", err1)
+			return
+		}
+	}
+	e.S.Go("writer0", func() {
+		defer func() { done0 = true }()
+		simrt.HYield()
+		w := wr0
+		rest := total
+		for rest != "" {
+			n := 1 + e.Choose("io", len(rest))
+			if second {
+				// with a second writer on the same pipe only whole lines are written at once
+				n = strings.IndexByte(rest, '\n') + 1
+			}
+			simrt.HYield()
+			if _, err := w.Write([]byte(rest[:n])); err != nil {
+				break
+			}
+			sent += n
+			rest = rest[n:]
+		}
+		simrt.HYield()
+		w.Close()
+	})
+	if second {
+		e.S.Go("writer1", func() {
+			defer func() { done1 = true }()
+			simrt.HYield()
+			w := wr1
+			for _, l := range w1 {
+				simrt.HYield()
+				if _, err := w.Write([]byte(l + "\n")); err != nil {
+					break
+				}
+				w1sent = append(w1sent, l)
+			}
+			simrt.HYield()
+			w.Close()
+		})
+	}
+	cancelled := false
+	cancelAt := -1
+	if cancelEarly {
+		cancelAt = e.Choose("fault", 300)
+	}
+	for i := 0; i < 2000000 && !e.S.OverBudget(); i++ {
+		if i == cancelAt {
+			r.cancel()
+			cancelled = true
+			e.Fault("cancel_while_writers_active")
+		}
+		if !e.S.Step() {
+			if done0 && done1 {
+				break
+			}
+			r.sw.Tick()
+			continue
+		}
+		if e.Choose("env", 20) == 0 {
+			r.sw.Tick()
+		}
+	}
+	// let the stream drain what was written
+	for k := 0; k < 4; k++ {
+		r.sw.Tick()
+		if !r.quiesce() {
+			return
+		}
+	}
+	kind := "named pipe"
+	if stdin {
+		kind = "stdin"
+	}
+	desc := fmt.Sprintf("%s, writers=%d, cancel-early=%v", kind, map[bool]int{false: 1, true: 2}[second], cancelled)
+	var got0, got1 []string
+	for _, l := range r.got {
+		switch {
+		case strings.HasPrefix(l.Line, "w1-") && !strings.Contains(l.Line, "w0-"):
+			got1 = append(got1, l.Line)
+		case strings.HasPrefix(l.Line, "w0-") && !strings.Contains(l.Line, "w1-"):
+			got0 = append(got0, l.Line)
+		default:
+			if cancelled && len(l.Line) <= 3 {
+				continue
+			}
+			e.Fail("spliced", "%s: delivered line %q", desc, l.Line)
+			return
+		}
+	}
+	// what writer 0 actually got into the pipe (it cannot open the pipe once the reader has gone,
+	// which happens when the other writer opened, wrote and closed first)
+	want0 := c15Expected(total[:sent])
+	if cancelled {
+		want0 = append([]string{}, w0...)
+		if tail != "" {
+			want0 = append(want0, tail)
+		}
+	}
+	if sent < len(total) && !cancelled {
+		e.Probe("writer_found_pipe_without_reader")
+	}
+	checkSeq := func(name string, got, want []string) bool {
+		for i, s := range got {
+			if i >= len(want) {
+				e.Fail("dup", "%s: %s delivered %s, wrote %s", desc, name, quoteList(got), quoteList(want))
+				return false
+			}
+			if s != want[i] && !(cancelled && i == len(got)-1 && strings.HasPrefix(want[i]+"\r", s)) {
+				cls := "order"
+				for _, x := range got[:i] {
+					if x == s {
+						cls = "dup"
+					}
+				}
+				e.Fail(cls, "%s: %s delivered %s, wrote %s", desc, name, quoteList(got), quoteList(want))
+				return false
+			}
+		}
+		if !cancelled && len(got) < len(want) {
+			cls := "lost"
+			if len(got) == len(want)-1 && tail != "" && name == "writer 0" {
+				cls = "tail"
+			}
+			e.Fail(cls, "%s: %s wrote %s but only %s was delivered after the writers closed", desc, name, quoteList(want), quoteList(got))
+			return false
+		}
+		return true
+	}
+	if !checkSeq("writer 0", got0, want0) || !checkSeq("writer 1", got1, w1sent) {
+		return
+	}
+	if tail != "" && !cancelled && sent == len(total) {
+		e.Probe("tail_delivered_at_close")
+	}
+	e.Probe("pipe_run")
+	if !cancelled {
+		r.cancel()
+	}
+	if !r.quiesce() {
+		return
+	}
+	r.sw.Tick()
+	r.pw.Tick()
+	if !r.quiesce() {
+		return
+	}
+	if !r.consumed {
+		e.Fail("not-closed", "%s: the tailer's output did not end after cancellation; live: %s", desc, liveString(e))
+		return
+	}
+	for _, t := range e.S.Live() {
+		if !strings.HasPrefix(t.Name, "writer") {
+			e.Fail("goroutine-left", "%s: tasks remain after shutdown: %s", desc, liveString(e))
+			return
+		}
+	}
+	e.R.Nontrivial = true
+	e.R.Key = fmt.Sprintf("%s|%x", desc, e.S.Signature())
+	e.R.Sample = map[string]any{"pattern": kind, "writers": map[bool]int{false: 1, true: 2}[second], "cancel_early": cancelled, "delivered": len(r.got)}
 }
